@@ -52,8 +52,11 @@ HasFocus(c) == ~IsLinux(c) /\ (Has(c, "EnableFocusReporting") \/ MouseLike(c))
 HasCursorStyles(c) == Has(c, "CursorDefault") \/ MouseLike(c)
 Ich1Trick(c) == c.ti.AutoMargin /\ ~Has(c, "DisableAutoMargin") /\ Has(c, "InsertChar")
 
-Quirks(c) == [ffclear |-> Cap(c, "Clear") = <<12>>,
-              sgrfont |-> Cap(c, "EnterAcs") \in {<<27, 91, 49, 49, 109>>, <<27, 91, 49, 50, 109>>}]
+Quirks(c) == LET sf == Cap(c, "EnterAcs") \in {<<27, 91, 49, 49, 109>>, <<27, 91, 49, 50, 109>>}
+                 ac == c.ti.AltChars
+             IN [ffclear |-> Cap(c, "Clear") = <<12>>, sgrfont |-> sf,
+                 \* CP437-style maps place glyphs on control codes (arrows at 0x10 0x11 0x18 0x19)
+                 fontctl |-> IF sf THEN {ac[2 * k] : k \in {j \in 1..(Len(ac) \div 2) : ac[2 * j] < 32}} ELSE {}]
 
 Key(col) == "c" \o ToString(col[1]) \o "_" \o ToString(col[2])
 
